@@ -184,6 +184,7 @@ static Explored explore_object(const Cell &cell, int k, const Params &p, const s
     E.fails.push_back(c.fails[0]);
   };
   // root state is discovered by the first child
+  states.reserve((size_t)max_states + 4);   // references into `states` are held across push_back below: never reallocate
   states.push_back({{}, 0, 0});
   int zcmd[2], zres[2], zstat[2];
   if (pipe(zcmd) || pipe(zres) || pipe(zstat)) exit(2);
@@ -311,11 +312,11 @@ int main(int argc, char **argv) {
     return 0;
   }
   Scope sc = Scope::parse(scope_s);
-  strs U; gen_universe(sc.sigma, sc.L, U);
-  std::vector<uint32_t> sets = enum_sets(sc, U.size());
+  strs U; scope_universe(sc, U);
+  std::vector<setmask> sets = enum_sets(sc, U);
   int si = atoi(shard.c_str()), sn = atoi(shard.substr(shard.find('/') + 1).c_str());
   long idx = 0;
-  for (uint32_t mask : sets) for (int pal : sc.pals) for (int st : sc.stretches) for (int pre : sc.pres) {
+  for (setmask mask : sets) for (int pal : sc.pals) for (int st : sc.stretches) for (int pre : sc.pres) {
     long my = idx++; units_total++;
     if (my % sn != si) continue;
     if (now_s() > deadline) { complete = false; continue; }
